@@ -45,6 +45,8 @@ Definition run_case (pn : N) (dom : string) (args : list arg) : list string :=
     match args with [AB h; AB l] => run_mbihuge h l | _ => bad end
   else if dom =? "findhuge" then
     match args with [AN L; AB pre] => run_findhuge L pre | _ => bad end
+  else if dom =? "cloneparsed" then
+    match args with [AB bs] => run_cloneparsed p bs | _ => bad end
   else if dom =? "tageq" then
     match args with [AB b1; AB b2] => run_tageq p b1 b2 | _ => bad end
   else if dom =? "bigwalk" then
